@@ -980,28 +980,32 @@ impl Cpu {
         Ok(())
     }
 
-    fn div(&mut self, a: u32, b: u32, _src: usize, dst: usize) -> u32 {
-        match self.ir.operands[dst].data_type {
-            Data::Word => (b as i32 / a as i32) as u32,
-            Data::Half => (b as i16 / a as i16) as u32,
-            Data::SByte => (b as i8 / a as i8) as u32,
-            Data::UWord => b / a,
-            Data::UHalf => u32::from(b as u16 / a as u16),
-            Data::Byte => u32::from(b as u8 / a as u8),
-            _ => b / a,
-        }
+    fn div(&mut self, a: u32, b: u32, _src: usize, dst: usize) -> Result<u32, CpuError> {
+        // A divisor that is zero at the operand size is a zero divide; the
+        // most negative value divided by -1 wraps.
+        let result = match self.ir.operands[dst].data_type {
+            Data::Word if a as i32 != 0 => Some((b as i32).wrapping_div(a as i32) as u32),
+            Data::Half if a as i16 != 0 => Some((b as i16).wrapping_div(a as i16) as u32),
+            Data::SByte if a as i8 != 0 => Some((b as i8).wrapping_div(a as i8) as u32),
+            Data::Word | Data::Half | Data::SByte => None,
+            Data::UHalf => (b as u16).checked_div(a as u16).map(u32::from),
+            Data::Byte => (b as u8).checked_div(a as u8).map(u32::from),
+            _ => b.checked_div(a),
+        };
+        result.ok_or(CpuError::Exception(CpuException::IntegerZeroDivide))
     }
 
-    fn modulo(&mut self, a: u32, b: u32, _src: usize, dst: usize) -> u32 {
-        match self.ir.operands[dst].data_type {
-            Data::Word => (b as i32 % a as i32) as u32,
-            Data::Half => (b as i16 % a as i16) as u32,
-            Data::SByte => (b as i8 % a as i8) as u32,
-            Data::UWord => b % a,
-            Data::UHalf => u32::from(b as u16 % a as u16),
-            Data::Byte => u32::from(b as u8 % a as u8),
-            _ => b % a,
-        }
+    fn modulo(&mut self, a: u32, b: u32, _src: usize, dst: usize) -> Result<u32, CpuError> {
+        let result = match self.ir.operands[dst].data_type {
+            Data::Word if a as i32 != 0 => Some((b as i32).wrapping_rem(a as i32) as u32),
+            Data::Half if a as i16 != 0 => Some((b as i16).wrapping_rem(a as i16) as u32),
+            Data::SByte if a as i8 != 0 => Some((b as i8).wrapping_rem(a as i8) as u32),
+            Data::Word | Data::Half | Data::SByte => None,
+            Data::UHalf => (b as u16).checked_rem(a as u16).map(u32::from),
+            Data::Byte => (b as u8).checked_rem(a as u8).map(u32::from),
+            _ => b.checked_rem(a),
+        };
+        result.ok_or(CpuError::Exception(CpuException::IntegerZeroDivide))
     }
 
     // TODO: Remove unwraps
@@ -1349,7 +1353,7 @@ impl Cpu {
                     self.set_v_flag(true);
                 }
 
-                let result = self.div(a, b, 0, 1);
+                let result = self.div(a, b, 0, 1)?;
                 self.write_op(bus, 1, result)?;
                 self.set_nz_flags(result, 1);
                 self.set_c_flag(false);
@@ -1366,7 +1370,7 @@ impl Cpu {
                     self.set_v_flag(true);
                 }
 
-                let result = self.div(a, b, 0, 1);
+                let result = self.div(a, b, 0, 1)?;
                 self.write_op(bus, 1, result)?;
                 self.set_nz_flags(result, 1);
                 self.set_c_flag(false);
@@ -1383,7 +1387,7 @@ impl Cpu {
                     self.set_v_flag(true);
                 }
 
-                let result = self.div(a, b, 0, 1);
+                let result = self.div(a, b, 0, 1)?;
                 self.write_op(bus, 1, result)?;
                 self.set_nz_flags(result, 1);
                 self.set_c_flag(false);
@@ -1400,7 +1404,7 @@ impl Cpu {
                     self.set_v_flag(true);
                 }
 
-                let result = self.div(a, b, 0, 1);
+                let result = self.div(a, b, 0, 1)?;
                 self.write_op(bus, 2, result)?;
                 self.set_nz_flags(result, 2);
                 self.set_c_flag(false);
@@ -1417,7 +1421,7 @@ impl Cpu {
                     self.set_v_flag(true);
                 }
 
-                let result = self.div(a, b, 0, 1);
+                let result = self.div(a, b, 0, 1)?;
                 self.write_op(bus, 2, result)?;
                 self.set_nz_flags(result, 2);
                 self.set_c_flag(false);
@@ -1434,7 +1438,7 @@ impl Cpu {
                     self.set_v_flag(true);
                 }
 
-                let result = self.div(a, b, 0, 1);
+                let result = self.div(a, b, 0, 1)?;
                 self.write_op(bus, 2, result)?;
                 self.set_nz_flags(result, 2);
                 self.set_c_flag(false);
@@ -1636,7 +1640,7 @@ impl Cpu {
                 if a == 0 {
                     return Err(CpuError::Exception(CpuException::IntegerZeroDivide));
                 }
-                let result = self.modulo(a, b, 0, 1);
+                let result = self.modulo(a, b, 0, 1)?;
                 self.write_op(bus, 1, result)?;
                 self.set_nz_flags(result, 1);
                 self.set_c_flag(false);
@@ -1650,7 +1654,7 @@ impl Cpu {
                     return Err(CpuError::Exception(CpuException::IntegerZeroDivide));
                 }
 
-                let result = self.modulo(a, b, 0, 1);
+                let result = self.modulo(a, b, 0, 1)?;
                 self.write_op(bus, 2, result)?;
                 self.set_nz_flags(result, 2);
                 self.set_c_flag(false);
